@@ -367,4 +367,36 @@ Section Upd.
     apply (update_path_independent sk header s msgs ups [] sa ma s msgs); auto.
   Qed.
 
+  (* ---------------------------------------------------------------- histories never get stuck *)
+  (* a history of in-range updates from a valid signature returns a signature -- unless at some step k the signer's own B for the
+     vector reached there is the identity (the negligible event on which signing that vector fails as well) *)
+  Theorem update_history_total sk header ups : forall s msgs,
+    suite_ok E ->
+    verify E s (sk_to_pk E sk) (Some msgs) header = Ok tt ->
+    Forall (fun u : N * bytes => fst u < len msgs) ups ->
+    len msgs < usize_max - 1 -> sk + sig_e E s <> 0 ->
+    (exists s' msgs', run_updates s sk msgs ups = Ok (s', msgs')) \/
+    (run_updates s sk msgs ups = Err /\
+     exists k, (k < length ups)%nat /\
+       forall e' B, sign_eB E (Some (apply_updates msgs (firstn (Datatypes.S k) ups))) sk (sk_to_pk E sk) header = Ok (e', B) -> B = g1_zero P).
+  Proof.
+    induction ups as [|[i v] ups IH]; intros s msgs Hs Hv Hall Hbig Hnz.
+    - left. eexists. eexists. reflexivity.
+    - inversion Hall as [|u l Hi Hrest]; subst. cbn [fst] in Hi.
+      cbn [run_updates].
+      destruct (update_step_total sk s msgs header i v Hs Hv Hi Hbig Hnz) as [[s1 Hu]|[Hu HB]].
+      + rewrite Hu. cbn [bind].
+        destruct (update_step_valid _ _ _ _ _ _ _ Hs Hv Hu) as [Hv1 [He1 _]].
+        assert (Hlen : len (upd_nth (N.to_nat i) v msgs) = len msgs) by (unfold len; rewrite upd_nth_length; reflexivity).
+        destruct (IH s1 (upd_nth (N.to_nat i) v msgs) Hs Hv1) as [Hok|[Herr [k [Hk HBk]]]].
+        * rewrite Hlen. exact Hrest.
+        * rewrite Hlen. exact Hbig.
+        * rewrite He1. exact Hnz.
+        * left. exact Hok.
+        * right. split; [exact Herr|]. exists (Datatypes.S k). split; [cbn [length]; lia|].
+          intros e' B. cbn [firstn apply_updates]. apply HBk.
+      + right. rewrite Hu. cbn [bind]. split; [reflexivity|]. exists 0%nat. split; [cbn [length]; lia|].
+        intros e' B. cbn [firstn apply_updates]. apply HB.
+  Qed.
+
 End Upd.
